@@ -609,6 +609,14 @@ def check(ctx: Ctx) -> list[RuleResult]:
                         return True
                     for x in ast.walk(e):
                         if isinstance(x, ast.Name):
+                            # bound by a walrus/assignment inside the branch: what it was bound from
+                            for b9 in ast.walk(n):
+                                if isinstance(b9, ast.NamedExpr) and b9.target.id == x.id and b9.value is not e and not any(y is e for y in ast.walk(b9.value)):
+                                    if from_payload(b9.value):
+                                        return True
+                                elif isinstance(b9, ast.Assign) and any(isinstance(t, ast.Name) and t.id == x.id for t in b9.targets) and not any(y is e for y in ast.walk(b9.value)):
+                                    if from_payload(b9.value):
+                                        return True
                             p9 = getattr(c, "parent", None)
                             while p9 is not None and p9 is not n:
                                 if isinstance(p9, (ast.For, ast.AsyncFor)) and any(isinstance(t, ast.Name) and t.id == x.id for t in ast.walk(p9.target)):
